@@ -172,8 +172,8 @@ def r2(case, rec):
     data = data + 0.0
     dfs = dadi.Spectrum(data, mask=dmask, mask_corners=False)
     ok = ~dmask
-    if not ok.any() or data[ok].sum() <= 0:
-        return
+    if not ok.any() or data[ok].sum() <= 1e-200:
+        return      # no data (or a total in the subnormal range, where the optimal scaling underflows): degenerate
     rec.case(case, True, ['dim=%d' % data.ndim, case['kind'], 'zeros' if (data[ok] == 0).any() else 'nozeros'])
     best_model = dadi.Spectrum(case['const'] * data, mask=dmask, mask_corners=False)
     with dadi_call('ll_multinom(data*const, data)'):
